@@ -65,6 +65,8 @@ type raceScenario struct {
 	Fault   float64 `json:"fault"`
 	Cache   int     `json:"cache"`
 	Millis  int     `json:"millis"`
+	TTL     int     `json:"event_ttl_s,omitempty"`   // TTL of Event records (seconds): expiry timers fire during the run
+	Lazy    int     `json:"lazy_watchers,omitempty"` // watchers that never read: the hub has to drop them
 }
 
 func genRace(r *rt.Rand, idx int) raceScenario {
@@ -75,6 +77,16 @@ func genRace(r *rt.Rand, idx int) raceScenario {
 	}
 	if r.Chance(0.6) {
 		sc.Fault = 0.02 + 0.08*r.Float64()
+	}
+	switch idx % 6 {
+	case 1:
+		// Event records expire while requests are served (memkv timers)
+		sc.Engine, sc.TTL, sc.Millis = "memkv", 1, 3000
+		sc.Ops = 3000
+	case 4:
+		// subscribers that never read are dropped by the hub (10 000 batches buffered) while others come and go
+		sc.Engine, sc.Lazy, sc.Fault = "memkv", 20+r.Intn(30), 0
+		sc.Workers, sc.Ops, sc.Millis = 6+r.Intn(6), 7000, 20000
 	}
 	return sc
 }
@@ -92,10 +104,26 @@ func runRace(sc raceScenario) (ops int64) {
 	if sc.Fault > 0 {
 		kv = &faultKV{KvStorage: inner, rng: rand.New(rand.NewSource(int64(sc.Seed))), rate: sc.Fault}
 	}
-	b := backend.NewBackend(kv, backend.Config{Prefix: prefix, Identity: "race", WatchCacheSize: sc.Cache, EnableEtcdCompatibility: true}, world.NewRecMetrics(nil))
+	if sc.TTL > 0 {
+		defer backend.SetEventsTTLForSim(backend.SetEventsTTLForSim(int64(sc.TTL)))
+	}
+	rm := world.NewRecMetrics(nil)
+	defer func() {
+		fmt.Fprintf(os.Stderr, "\nRACE-RUN-INFO slow watchers dropped: %.0f, watchers added: %.0f\n", rm.Counter("drop.slow.watcher"), rm.Counter("watcher_hub.add_watcher"))
+	}()
+	b := backend.NewBackend(kv, backend.Config{Prefix: prefix, Identity: "race", WatchCacheSize: sc.Cache, EnableEtcdCompatibility: true}, rm)
 	b.SetCurrentRevision(1000)
 	ctx, cancelAll := context.WithCancel(context.Background())
 	defer cancelAll()
+	if sc.Lazy > 0 {
+		// never read; registered one after the other, so that the hub drops them at different moments
+		go func() {
+			for i := 0; i < sc.Lazy; i++ {
+				b.Watch(ctx, prefix+"/", 0)
+				time.Sleep(40 * time.Millisecond)
+			}
+		}()
+	}
 	deadline := time.Now().Add(time.Duration(sc.Millis) * time.Millisecond)
 	var wg sync.WaitGroup
 	var n int64
@@ -112,7 +140,17 @@ func runRace(sc raceScenario) (ops int64) {
 					key = fmt.Sprintf("%s/events/ns/e%d", prefix, r.Intn(2))
 				}
 				atomic.AddInt64(&n, 1)
-				switch x := r.Intn(100); {
+				x := r.Intn(100)
+				if sc.Lazy > 0 && x >= 57 && x < 93 {
+					x = 20 + r.Intn(25) // mostly updates: every successful write is one more batch in the lazy watchers' buffers
+				}
+				if sc.Lazy > 0 {
+					key = fmt.Sprintf("%s/g%d/k%d", prefix, g, r.Intn(3)) // private keys: the guarded writes succeed
+				}
+				if sc.TTL > 0 && r.Intn(2) == 0 {
+					key = fmt.Sprintf("%s/events/ns/e%d", prefix, r.Intn(40))
+				}
+				switch {
 				case x < 18:
 					resp, err := b.Create(ctx, &proto.CreateRequest{Key: []byte(key), Value: []byte(fmt.Sprintf("v%d.%d", g, i))})
 					if err == nil && resp.Succeeded {
